@@ -755,7 +755,7 @@ def racah_formula(chk, inv):
            all(x.guards[-1][1] and x.guards[-1][0].key() == P.atom(("lt", lp.hi - 1, lp.lo)).key() for x in over), fingerprint="racah:empty-range",
            found=[str(x.guards[-1][0])[:100] for x in over][:1])
     # the prefactor: a product of square roots, each factorial once
-    ret = ev.returns[-1].value
+    ret = ev.returns.pick(-1).value
     num = [F(e_), F(H(j1 + j - j2)), F(H(j2 + j - j1)), F(H(j1 + m1)), F(a_), F(c_), F(H(j2 - m2)), F(H(j + m)), F(H(j - m)), j + 1]
     den_ = [F(H(j1 + j2 + j) + 1)]
     sq = lambda t_: P.atom(("call", P.name("sqrt"), (t_,)))
